@@ -15,6 +15,7 @@ import (
 	"io"
 	"net/http"
 	"net/http/httptest"
+	"strings"
 	"sync"
 	"sync/atomic"
 	"time"
@@ -488,5 +489,323 @@ func scriptedComments(c *hk.Ctx) {
 		}
 		outW.Close()
 		inW.Close()
+	}
+}
+
+// ---------------------------------------------------------------- bursts to the real clients
+
+// runClientBursts: many notifications sent back to back (same millisecond) plus several roots/list requests to ONE session
+// of a real client, repeated for fresh sessions: every send that reported success reaches the client's handler exactly
+// once (Streamable: in sending order — its reader handles events one after the other), every request is answered once.
+func runClientBursts(c *hk.Ctx) {
+	rounds, nNotif, nRoots := 3, 120, 3
+	if c.Thorough() {
+		rounds, nNotif = 10, 250
+	}
+	type recorder struct {
+		mu    sync.Mutex
+		order []string
+		count map[string]int
+	}
+	newRec := func() *recorder { return &recorder{count: map[string]int{}} }
+	handler := func(r *recorder) func(n *mcp.JSONRPCNotification) error {
+		return func(n *mcp.JSONRPCNotification) error {
+			if v, ok := n.Params.AdditionalFields["nonce"].(string); ok {
+				r.mu.Lock()
+				r.order = append(r.order, v)
+				r.count[v]++
+				r.mu.Unlock()
+			}
+			return nil
+		}
+	}
+	judge := func(kind string, round int, sentOK []string, r *recorder, ordered bool, rootsOK, rootsCalls int64, answers map[string]int) {
+		r.mu.Lock()
+		order := append([]string{}, r.order...)
+		count := map[string]int{}
+		for k, v := range r.count {
+			count[k] = v
+		}
+		r.mu.Unlock()
+		c.Count(fmt.Sprintf("client-burst-%s-%d", kind, round), true, map[string]any{"kind": "client-burst", "transport": kind, "sent_ok": len(sentOK), "handled": len(order), "roots_ok": rootsOK, "provider_calls": rootsCalls}, "client-burst-"+kind)
+		for i, n := range sentOK {
+			if count[n] != 1 {
+				c.Violate(hk.Violation{Fingerprint: "routing:e2e:burst-notification-not-handled-once:" + kind,
+					What:     "notifications sent back to back to one session of the real client: a send that reported success did not reach the client's handler exactly once",
+					Input:    map[string]any{"transport": kind, "burst": len(sentOK), "position_in_burst": i, "nonce": n, "fresh_session_no": round},
+					Observed: map[string]any{"handler_invocations": count[n], "handled_in_total": len(order)}, Expected: 1})
+				return
+			}
+		}
+		if ordered && strings.Join(order, ",") != strings.Join(sentOK, ",") {
+			first := 0
+			for first < len(order) && first < len(sentOK) && order[first] == sentOK[first] {
+				first++
+			}
+			c.Violate(hk.Violation{Fingerprint: "routing:e2e:burst-notifications-out-of-order:" + kind, What: "the real client's handler saw the notifications of a burst in another order than they were sent",
+				Input: map[string]any{"transport": kind, "burst": len(sentOK)}, Observed: map[string]any{"first_divergence_at": first}})
+		}
+		if rootsCalls != rootsOK {
+			c.Violate(hk.Violation{Fingerprint: "routing:e2e:server-request-not-handled-once:" + kind,
+				What:     "roots/list requests issued back to back with a burst of notifications: the real client's roots provider was not invoked exactly once per request",
+				Input:    map[string]any{"transport": kind, "requests_answered": rootsOK, "burst": len(sentOK)},
+				Observed: map[string]any{"provider_invocations": rootsCalls}, Expected: rootsOK})
+		}
+		for id, n := range answers {
+			if n != 1 {
+				c.Violate(hk.Violation{Fingerprint: "routing:e2e:server-request-answered-more-than-once:" + kind, What: "the real client posted more than one answer for one server-issued request",
+					Input: map[string]any{"transport": kind, "request_id": id}, Observed: n, Expected: 1})
+				break
+			}
+		}
+	}
+	// ---- Streamable
+	for round := 0; round < rounds; round++ {
+		f := hk.NewFixture(hk.SrvCfg{Mode: "stateful", Get: true, PostSSE: false})
+		ac := &answerCount{}
+		ts := httptest.NewUnstartedServer(countingAnswers(ac, f.S.Handler()))
+		ts.Config.ErrorLog = hk.QuietStdLog()
+		ts.Start()
+		var calls atomic.Int64
+		rec := newRec()
+		cl, err := mcp.NewClient(ts.URL+"/mcp", mcp.Implementation{Name: "client-0", Version: "1"}, mcp.WithClientLogger(hk.QuietLogger{}))
+		if err == nil {
+			cl.SetRootsProvider(countingRoots{"client-0", &calls})
+			cl.RegisterNotificationHandler("notifications/message", handler(rec))
+			ctx, cancel := context.WithTimeout(context.Background(), ceiling)
+			_, err = cl.Initialize(ctx, &mcp.InitializeRequest{})
+			cancel()
+		}
+		if err == nil {
+			sid := cl.GetSessionID()
+			waitUntil(func() bool { return mcp.VerifHasGetStream(f.S, sid) })
+			sctx, _ := mcp.VerifSessionContext(context.Background(), f.S, sid)
+			var rootsOK atomic.Int64
+			var wg sync.WaitGroup
+			for i := 0; i < nRoots; i++ {
+				wg.Add(1)
+				go func() {
+					defer wg.Done()
+					ctx, cancel := context.WithTimeout(sctx, waitCeiling())
+					defer cancel()
+					if res, err := f.S.ListRoots(ctx); err == nil && len(res.Roots) == 1 {
+						rootsOK.Add(1)
+					}
+				}()
+			}
+			var sentOK []string
+			for i := 0; i < nNotif; i++ {
+				nonce := fmt.Sprintf("cb%d-%d", round, i)
+				if f.S.SendNotification(sid, "notifications/message", map[string]interface{}{"nonce": nonce}) == nil {
+					sentOK = append(sentOK, nonce)
+				}
+			}
+			wg.Wait()
+			waitUntilShort(func() bool { rec.mu.Lock(); defer rec.mu.Unlock(); return len(rec.order) >= len(sentOK) })
+			judge("streamable", round, sentOK, rec, true, rootsOK.Load(), calls.Load(), ac.snapshot())
+			if rootsOK.Load() != int64(nRoots) {
+				c.Violate(hk.Violation{Fingerprint: "routing:e2e:roots-request-unanswered:streamable", What: "a roots/list request issued together with a burst of notifications was not answered by the real client",
+					Input: map[string]any{"requests": nRoots, "burst": nNotif}, Observed: map[string]any{"answered": rootsOK.Load()}})
+			}
+			cl.Close()
+		}
+		ts.CloseClientConnections()
+		ts.Close()
+		f.Close()
+	}
+	// ---- stdio, in process (the client runs every notification handler in a goroutine of its own: counts, not order)
+	{
+		srv := mcp.NewStdioServer("verif-stdio", "1.0", mcp.WithStdioServerLogger(hk.QuietLogger{}))
+		var grabbed atomic.Value
+		srv.RegisterTool(mcp.NewTool("grab"), func(ctx context.Context, req *mcp.CallToolRequest) (*mcp.CallToolResult, error) {
+			grabbed.Store(ctx)
+			return mcp.NewTextResult("ok"), nil
+		})
+		inR, inW := io.Pipe()
+		outR, outW := io.Pipe()
+		ac := &answerCount{}
+		ctx, cancel := context.WithCancel(context.Background())
+		go func() { mcp.VerifServeStdio(ctx, srv, inR, outW); outW.Close() }()
+		var calls atomic.Int64
+		rec := newRec()
+		sc, err := mcp.VerifNewStdioClientOnPipes(mcp.Implementation{Name: "client-0", Version: "1"}, 3*time.Second, &lineTee{w: inW, note: ac.note}, outR, mcp.WithStdioLogger(hk.QuietLogger{}))
+		if err == nil {
+			sc.SetRootsProvider(countingRoots{"client-0", &calls})
+			sc.RegisterNotificationHandler("notifications/message", handler(rec))
+			ictx, icancel := context.WithTimeout(context.Background(), ceiling)
+			_, err = sc.Initialize(ictx, &mcp.InitializeRequest{})
+			icancel()
+		}
+		if err == nil {
+			cctx, ccancel := context.WithTimeout(context.Background(), waitCeiling())
+			sc.CallTool(cctx, &mcp.CallToolRequest{Params: mcp.CallToolParams{Name: "grab", Arguments: map[string]interface{}{}}})
+			ccancel()
+			if sctx, ok := grabbed.Load().(context.Context); ok {
+				sess, _ := mcp.GetSessionFromContext(sctx)
+				ns, _ := sess.(notifSession)
+				var rootsOK atomic.Int64
+				var wg sync.WaitGroup
+				for i := 0; i < nRoots; i++ {
+					wg.Add(1)
+					go func() {
+						defer wg.Done()
+						rctx, rcancel := context.WithTimeout(sctx, waitCeiling())
+						defer rcancel()
+						if res, err := srv.ListRoots(rctx); err == nil && len(res.Roots) == 1 {
+							rootsOK.Add(1)
+						}
+					}()
+				}
+				var sentOK []string
+				for i := 0; i < nNotif && ns != nil; i++ {
+					nonce := fmt.Sprintf("cs-%d", i)
+					select {
+					case ns.NotificationChannel() <- *mcp.NewJSONRPCNotificationFromMap("notifications/message", map[string]interface{}{"nonce": nonce}):
+						sentOK = append(sentOK, nonce)
+					default:
+					}
+				}
+				wg.Wait()
+				waitUntilShort(func() bool { rec.mu.Lock(); defer rec.mu.Unlock(); return len(rec.order) >= len(sentOK) })
+				judge("stdio", 0, sentOK, rec, false, rootsOK.Load(), calls.Load(), ac.snapshot())
+			}
+		}
+		if sc != nil {
+			go sc.Close()
+		}
+		cancel()
+		inW.Close()
+		outW.Close()
+	}
+	// ---- legacy SSE: requests back to back (the client offers no notification handler)
+	{
+		srv := mcp.NewSSEServer("verif-sse", "1.0", mcp.WithSSEServerLogger(hk.QuietLogger{}), mcp.WithKeepAlive(false))
+		var grabbed atomic.Value
+		srv.RegisterTool(mcp.NewTool("grab"), func(ctx context.Context, req *mcp.CallToolRequest) (*mcp.CallToolResult, error) {
+			grabbed.Store(ctx)
+			return mcp.NewTextResult("ok"), nil
+		})
+		ac := &answerCount{}
+		ts := httptest.NewUnstartedServer(countingAnswers(ac, srv))
+		ts.Config.ErrorLog = hk.QuietStdLog()
+		ts.Start()
+		var calls atomic.Int64
+		cl, err := mcp.NewSSEClient(ts.URL+srv.SSEPath(), mcp.Implementation{Name: "client-0", Version: "1"}, mcp.WithClientLogger(hk.QuietLogger{}))
+		if err == nil {
+			cl.SetRootsProvider(countingRoots{"client-0", &calls})
+			ctx, cancel := context.WithTimeout(context.Background(), ceiling)
+			_, err = cl.Initialize(ctx, &mcp.InitializeRequest{})
+			cancel()
+		}
+		if err == nil {
+			gctx, gcancel := context.WithTimeout(context.Background(), waitCeiling())
+			cl.CallTool(gctx, &mcp.CallToolRequest{Params: mcp.CallToolParams{Name: "grab", Arguments: map[string]interface{}{}}})
+			gcancel()
+			if sctx, ok := grabbed.Load().(context.Context); ok {
+				var rootsOK atomic.Int64
+				var wg sync.WaitGroup
+				for i := 0; i < 8; i++ {
+					wg.Add(1)
+					go func() {
+						defer wg.Done()
+						rctx, rcancel := context.WithTimeout(sctx, waitCeiling())
+						defer rcancel()
+						if res, err := srv.ListRoots(rctx); err == nil && len(res.Roots) == 1 {
+							rootsOK.Add(1)
+						}
+					}()
+				}
+				wg.Wait()
+				judge("legacy-sse", 0, nil, newRec(), false, rootsOK.Load(), calls.Load(), ac.snapshot())
+				if rootsOK.Load() != 8 {
+					c.Violate(hk.Violation{Fingerprint: "routing:e2e:roots-request-unanswered:legacy-sse", What: "roots/list requests issued back to back were not all answered by the real client",
+						Input: map[string]any{"requests": 8}, Observed: map[string]any{"answered": rootsOK.Load()}})
+				}
+			}
+			cl.Close()
+		}
+		ts.CloseClientConnections()
+		ts.Close()
+	}
+	scriptedEventIDs(c)
+}
+
+// scriptedEventIDs: a scripted GET stream whose event ids are equal, decreasing, ordered lexicographically but not
+// numerically, absent or arbitrary strings — ids are opaque to a client: the real Streamable client hands every event to the
+// handler once, in stream order.
+func scriptedEventIDs(c *hk.Ctx) {
+	ids := []string{"evt-5-8", "evt-5-9", "evt-5-10", "evt-5-11", "evt-5-100", "same", "same", "same", "9", "8", "7", "", "", "zz", "a!", "Z", "0", "evt-4-1"}
+	h := http.HandlerFunc(func(w http.ResponseWriter, r *http.Request) {
+		switch r.Method {
+		case http.MethodGet:
+			fl := w.(http.Flusher)
+			w.Header().Set("Content-Type", "text/event-stream")
+			w.WriteHeader(200)
+			fl.Flush()
+			for i, id := range ids {
+				if id != "" {
+					fmt.Fprintf(w, "id: %s\n", id)
+				}
+				fmt.Fprintf(w, "data: {\"jsonrpc\":\"2.0\",\"method\":\"notifications/message\",\"params\":{\"nonce\":\"ev-%d\"}}\n\n", i)
+			}
+			fl.Flush()
+			<-r.Context().Done()
+		case http.MethodPost:
+			b, _ := io.ReadAll(r.Body)
+			var m struct {
+				ID     json.RawMessage `json:"id"`
+				Method string          `json:"method"`
+			}
+			json.Unmarshal(b, &m)
+			w.Header().Set("Mcp-Session-Id", "scripted-session")
+			if m.Method == "initialize" {
+				w.Header().Set("Content-Type", "application/json")
+				fmt.Fprintf(w, `{"jsonrpc":"2.0","id":%s,"result":{"protocolVersion":"2025-03-26","capabilities":{},"serverInfo":{"name":"scripted","version":"1"}}}`, string(m.ID))
+				return
+			}
+			w.WriteHeader(http.StatusAccepted)
+		default:
+			w.WriteHeader(200)
+		}
+	})
+	ts := httptest.NewUnstartedServer(h)
+	ts.Config.ErrorLog = hk.QuietStdLog()
+	ts.Start()
+	defer func() { ts.CloseClientConnections(); ts.Close() }()
+	var mu sync.Mutex
+	var order []string
+	cl, err := mcp.NewClient(ts.URL+"/mcp", mcp.Implementation{Name: "client-0", Version: "1"}, mcp.WithClientLogger(hk.QuietLogger{}))
+	if err != nil {
+		return
+	}
+	cl.RegisterNotificationHandler("notifications/message", func(n *mcp.JSONRPCNotification) error {
+		if v, ok := n.Params.AdditionalFields["nonce"].(string); ok {
+			mu.Lock()
+			order = append(order, v)
+			mu.Unlock()
+		}
+		return nil
+	})
+	ctx, cancel := context.WithTimeout(context.Background(), ceiling)
+	_, err = cl.Initialize(ctx, &mcp.InitializeRequest{})
+	cancel()
+	if err != nil {
+		return
+	}
+	defer cl.Close()
+	waitUntilShort(func() bool { mu.Lock(); defer mu.Unlock(); return len(order) >= len(ids) })
+	mu.Lock()
+	got := strings.Join(order, ",")
+	mu.Unlock()
+	var want []string
+	for i := range ids {
+		want = append(want, fmt.Sprintf("ev-%d", i))
+	}
+	c.Count("scripted-event-ids", true, map[string]any{"kind": "scripted-event-ids", "events": len(ids), "handled": len(order)}, "scripted-event-ids")
+	if got != strings.Join(want, ",") {
+		c.Violate(hk.Violation{Fingerprint: "routing:e2e:event-dropped-by-its-id:streamable-client",
+			What:     "the real Streamable client did not hand every event of its GET stream to the handler exactly once in stream order: event ids are opaque strings, they must not decide delivery",
+			Input:    map[string]any{"event_ids_in_stream_order": ids},
+			Observed: map[string]any{"handled": got}, Expected: strings.Join(want, ",")})
 	}
 }
